@@ -346,13 +346,6 @@ EvCPM ==
 
 EvMark == IsEv("mark") /\ slot' = c /\ UNCHANGED <<c, bad, cov, kf>>
 
-StackDepth == 64
-BelowSP(x, a) == W(x.r.SP - a) \in 1 .. StackDepth
-Transparent(a, b) ==
-  /\ \A n \in DOMAIN a.r : n = "R" \/ a.r[n] = b.r[n]
-  /\ a.halt = b.halt
-  /\ \A x \in DOMAIN a.m \cup DOMAIN b.m : BelowSP(a, x) \/ Peek(a, x) = Peek(b, x)
-
 \* Mode 0 is not transparent in this implementation (finding F3: the supplied RST/CALL
 \* pushes PC + the bytes fetched).  Such runs are recorded in kf, not in bad; the driver
 \* reports them as KNOWN-FINDING only while known_findings.json lists F3 as known.
